@@ -77,6 +77,18 @@ def pairs(n, m):
     out.append((al.ones(n), al.ones(m), "ones"))
     g2 = dense(max(1, m - 1), 6) | 1
     out.append((g2 * (dense(max(1, n - m + 1), 7) | 1), 2 * g2, "|b|=2g"))
+    # long runs of all-ones / all-zero limbs in the upper, middle and lower third of either operand (carry/borrow chains in the
+    # folding and matrix-application steps); no planted factor: the reference gcd decides
+    if m >= 3:
+        t = max(1, m // 3)
+        for k, (lo_a, lo_b) in enumerate(((m - t - 1, m - t - 1), (t, m - t - 1), (m - t - 1, 0), (0, t))):
+            band_b = al.ones(t) << (64 * lo_b)
+            band_a = al.ones(t) << (64 * min(lo_a + (n - m), n - t))
+            b_ = (dense(m, 20 + k) | band_b) | 1
+            a_ = dense(n, 30 + k) | band_a
+            out.append((a_, b_, "ones_band%d" % k))
+            zb = (dense(m, 40 + k) & ~band_b) | 1 | (1 << (64 * m - 1))
+            out.append((dense(n, 50 + k) & ~band_a | (1 << (64 * n - 1)), zb, "zero_band%d" % k))
     return out
 
 
